@@ -128,12 +128,97 @@ func (u vfC10U64) MarshalJSON() ([]byte, error) {
 	return []byte(`"` + strconv.FormatUint(uint64(u), 10) + `"`), nil
 }
 
+// vfC10CC: Type/Profile are the canonical MEANING of what is configured (what the hook must
+// report); when Spelled is set, TypeAs/ProfileAs are the strings actually written into the
+// Config (other letter case, or empty = documented default), otherwise Type/Profile are written.
 type vfC10CC struct {
-	Type    string `json:"type"`
-	Profile string `json:"profile,omitempty"`
+	Type      string `json:"type"`
+	Profile   string `json:"profile,omitempty"`
+	Spelled   bool   `json:"spelled,omitempty"`
+	TypeAs    string `json:"type_as"`
+	ProfileAs string `json:"profile_as"`
 }
 
-var vfC10CCs = []vfC10CC{{"bbr", "standard"}, {"bbr", "conservative"}, {"bbr", "aggressive"}, {"reno", ""}}
+func (c vfC10CC) String() string {
+	m := strings.TrimSuffix(c.Type+"/"+c.Profile, "/")
+	if c.Spelled {
+		return fmt.Sprintf("%s written type=%q profile=%q", m, c.TypeAs, c.ProfileAs)
+	}
+	return m
+}
+
+// cfg returns the strings to put into CongestionConfig.Type / .BBRProfile.
+func (c vfC10CC) cfg() (string, string) {
+	if c.Spelled {
+		return c.TypeAs, c.ProfileAs
+	}
+	return c.Type, c.Profile
+}
+
+func vfC10Mixed(s string) string {
+	b := []byte(strings.ToLower(s))
+	for i := 1; i < len(b); i += 2 {
+		if b[i] >= 'a' && b[i] <= 'z' {
+			b[i] -= 32
+		}
+	}
+	return string(b)
+}
+
+func vfC10Cap(s string) string {
+	if s == "" {
+		return s
+	}
+	return strings.ToUpper(s[:1]) + s[1:]
+}
+
+// vfC10Respell keeps the meaning of c and picks how it is written in the Config: v mod 5 =
+// 0 lower case, 1 Capitalised, 2 UPPER, 3 mIxEd, 4 "left to the default where the default says
+// the same" (type "" = bbr, profile "" = standard; otherwise UPPER type with a Capitalised profile).
+// The clean tree's validation accepts every one of these (case-insensitive, empty = default);
+// should a tree reject a spelling at NewServer/NewClient the case is skipped and counted.
+func vfC10Respell(c vfC10CC, v int) vfC10CC {
+	c.Spelled, c.TypeAs, c.ProfileAs = false, "", ""
+	switch v % 5 {
+	case 1:
+		c.Spelled, c.TypeAs, c.ProfileAs = true, vfC10Cap(c.Type), vfC10Cap(c.Profile)
+	case 2:
+		c.Spelled, c.TypeAs, c.ProfileAs = true, strings.ToUpper(c.Type), strings.ToUpper(c.Profile)
+	case 3:
+		c.Spelled, c.TypeAs, c.ProfileAs = true, vfC10Mixed(c.Type), vfC10Mixed(c.Profile)
+	case 4:
+		c.Spelled, c.TypeAs, c.ProfileAs = true, strings.ToUpper(c.Type), vfC10Cap(c.Profile)
+		if c.Type == "bbr" {
+			c.TypeAs = ""
+		}
+		if c.Profile == "standard" {
+			c.ProfileAs = ""
+		}
+	}
+	return c
+}
+
+// vfC10SpellCounter hands out spelling variants in a fixed rotation (deterministic, no PRNG).
+type vfC10SpellCounter struct{ n int }
+
+func (sc *vfC10SpellCounter) next(c vfC10CC) vfC10CC {
+	sc.n++
+	return vfC10Respell(c, sc.n*3+sc.n/5) // stride 3 with a drift, so that neighbours and periods of 4/6 do not lock in
+}
+
+func (sc *vfC10SpellCounter) world(c *vfC10Case) {
+	c.Srv.CC = sc.next(c.Srv.CC)
+	for i := range c.Clients {
+		c.Clients[i].CC = sc.next(c.Clients[i].CC)
+	}
+}
+
+// vfC10ConfigRejected: the error of NewServer/NewClient says the congestion spelling is not accepted.
+func vfC10ConfigRejected(err string) bool {
+	return strings.Contains(err, "invalid config: CongestionConfig")
+}
+
+var vfC10CCs = []vfC10CC{{Type: "bbr", Profile: "standard"}, {Type: "bbr", Profile: "conservative"}, {Type: "bbr", Profile: "aggressive"}, {Type: "reno"}}
 
 var vfC10Vals = []uint64{0, 65536, 65537, 1_000_000, 1_000_000_000, math.MaxUint64}
 
@@ -336,10 +421,13 @@ func vfC10RunWorld(t *testing.T, k *vfKit, c vfC10Case) {
 				sc.BandwidthConfig.MaxTx = uint64(c.Srv.MaxTx)
 				sc.BandwidthConfig.MaxRx = uint64(c.Srv.MaxRx)
 				sc.IgnoreClientBandwidth = c.Srv.Ignore
-				sc.CongestionConfig.Type = c.Srv.CC.Type
-				sc.CongestionConfig.BBRProfile = c.Srv.CC.Profile
+				sc.CongestionConfig.Type, sc.CongestionConfig.BBRProfile = c.Srv.CC.cfg()
 			},
 		})
+		if err != nil && vfC10ConfigRejected(err.Error()) {
+			k.Count("spelling_rejected_server", 1)
+			return
+		}
 		if err != nil {
 			t.Fatalf("harness: server %+v: %v", c.Srv, err)
 		}
@@ -356,8 +444,7 @@ func vfC10RunWorld(t *testing.T, k *vfKit, c vfC10Case) {
 				_, info, addr, err := w.HyClient(fmt.Sprintf("ok:%s-h%d", c.CaseID, i), func(cc *client.Config) {
 					cc.BandwidthConfig.MaxTx = uint64(cl.MaxTx)
 					cc.BandwidthConfig.MaxRx = uint64(cl.MaxRx)
-					cc.CongestionConfig.Type = cl.CC.Type
-					cc.CongestionConfig.BBRProfile = cl.CC.Profile
+					cc.CongestionConfig.Type, cc.CongestionConfig.BBRProfile = cl.CC.cfg()
 				})
 				o := vfC10ConnObs{Tag: addr.String()}
 				if err != nil {
@@ -440,6 +527,9 @@ func vfC10JudgeWorld(k *vfKit, c vfC10Case, sink *vfC10Sink, hy, raw []vfC10Conn
 		k.Count("server_preauth_install_reports", int64(len(pre)))
 		if ok {
 			k.Count("ev_server_"+inst.Kind+"_as_ruled", 1)
+			if inst.Kind != "brutal" && c.Srv.CC.Spelled {
+				k.Count("server_configured_cc_from_respelled_config", 1)
+			}
 		} else if len(pre) > 0 {
 			// something was installed before authentication and the negotiation did not end in the ruled controller
 			k.Violation("server:preauth-controller-not-replaced-by-negotiation", rep(conn, map[string]any{"declared_cc_rx": declared, "effective": inst, "want": wants, "preauth_installs": pre}),
@@ -472,6 +562,10 @@ func vfC10JudgeWorld(k *vfKit, c vfC10Case, sink *vfC10Sink, hy, raw []vfC10Conn
 		conn := fmt.Sprintf("h%d", i)
 		cl := c.Clients[i]
 		k.Eval()
+		if vfC10ConfigRejected(o.Err) {
+			k.Count("spelling_rejected_client", 1)
+			continue
+		}
 		if o.Err != "" {
 			k.Inconclusive(fmt.Sprintf("%s %s: handshake failed: %s", c.CaseID, conn, o.Err))
 			continue
@@ -485,6 +579,9 @@ func vfC10JudgeWorld(k *vfKit, c vfC10Case, sink *vfC10Sink, hy, raw []vfC10Conn
 		want := vfC10RefClient(uint64(cl.MaxTx), c.Srv.Ignore, uint64(c.Srv.MaxRx))
 		if vfC10Match(inst, want, cl.CC) {
 			k.Count("ev_client_"+inst.Kind+"_as_ruled", 1)
+			if inst.Kind != "brutal" && cl.CC.Spelled {
+				k.Count("client_configured_cc_from_respelled_config", 1)
+			}
 		} else {
 			k.Violation("client:installed-rate-differs-from-rule", rep(conn, map[string]any{"installed": inst, "want": vfC10WantStr(want, cl.CC)}),
 				"client{maxTx=%d cc=%v} against server{maxRx=%d ignore=%v} installed %s, rule demands %s",
@@ -629,8 +726,7 @@ func vfC10RunFake(t *testing.T, k *vfKit, c vfC10FakeCase) {
 				_, info, addr, err := w.HyClient(fmt.Sprintf("%s-f%d", c.CaseID, i), func(cc *client.Config) {
 					cc.BandwidthConfig.MaxTx = uint64(fc.Cli.MaxTx)
 					cc.BandwidthConfig.MaxRx = uint64(fc.Cli.MaxRx)
-					cc.CongestionConfig.Type = fc.Cli.CC.Type
-					cc.CongestionConfig.BBRProfile = fc.Cli.CC.Profile
+					cc.CongestionConfig.Type, cc.CongestionConfig.BBRProfile = fc.Cli.CC.cfg()
 				})
 				o := vfC10ConnObs{Tag: addr.String()}
 				if err != nil {
@@ -662,6 +758,10 @@ func vfC10RunFake(t *testing.T, k *vfKit, c vfC10FakeCase) {
 			conn := fmt.Sprintf("f%d", i)
 			cred := fmt.Sprintf("%s-f%d", c.CaseID, i)
 			k.Eval()
+			if vfC10ConfigRejected(o.Err) {
+				k.Count("spelling_rejected_client", 1)
+				continue
+			}
 			if o.Err != "" {
 				k.Inconclusive(fmt.Sprintf("%s %s: handshake with fake server failed (resp CC-RX %q): %s", c.CaseID, conn, fc.RxHdr, o.Err))
 				continue
@@ -688,6 +788,9 @@ func vfC10RunFake(t *testing.T, k *vfKit, c vfC10FakeCase) {
 			}
 			if ok {
 				k.Count("ev_client_"+inst.Kind+"_as_ruled", 1)
+				if inst.Kind != "brutal" && fc.Cli.CC.Spelled {
+					k.Count("client_configured_cc_from_respelled_config", 1)
+				}
 			} else {
 				k.Violation("client:installed-rate-differs-from-rule", rep(map[string]any{"installed": inst, "want": wants}),
 					"client{maxTx=%d cc=%v} answered Hysteria-CC-RX %q installed %s, rule demands %s",
@@ -760,8 +863,7 @@ func vfC10RunHistory(t *testing.T, k *vfKit, h vfC10History) {
 		cfg.QUICConfig.DisablePathMTUDiscovery = true
 		cfg.BandwidthConfig.MaxTx = uint64(h.Cli.MaxTx)
 		cfg.BandwidthConfig.MaxRx = uint64(h.Cli.MaxRx)
-		cfg.CongestionConfig.Type = h.Cli.CC.Type
-		cfg.CongestionConfig.BBRProfile = h.Cli.CC.Profile
+		cfg.CongestionConfig.Type, cfg.CongestionConfig.BBRProfile = h.Cli.CC.cfg()
 		origBW := cfg.BandwidthConfig
 
 		var rc client.Client
@@ -779,10 +881,13 @@ func vfC10RunHistory(t *testing.T, k *vfKit, h vfC10History) {
 					sc.BandwidthConfig.MaxTx = uint64(srv.MaxTx)
 					sc.BandwidthConfig.MaxRx = uint64(srv.MaxRx)
 					sc.IgnoreClientBandwidth = srv.Ignore
-					sc.CongestionConfig.Type = srv.CC.Type
-					sc.CongestionConfig.BBRProfile = srv.CC.Profile
+					sc.CongestionConfig.Type, sc.CongestionConfig.BBRProfile = srv.CC.cfg()
 				},
 			})
+			if err != nil && vfC10ConfigRejected(err.Error()) {
+				k.Count("spelling_rejected_server", 1)
+				return
+			}
 			if err != nil {
 				t.Fatalf("harness: history server %+v: %v", srv, err)
 			}
@@ -886,10 +991,12 @@ func vfC10GenHistories(k *vfKit) []vfC10History {
 		{MaxTx: 0, MaxRx: 1_000_000, CC: vfC10CCs[0]},
 	}
 	n := 0
+	sp := vfC10SpellCounter{n: 3}
 	mk := func(kinds string, mode string, cli vfC10Cli) {
 		h := vfC10History{CaseID: fmt.Sprintf("c10h-%s-%s-%d", kinds, mode, n), Mode: mode, Cli: cli, Kinds: kinds}
+		h.Cli.CC = sp.next(h.Cli.CC)
 		for i, kd := range kinds {
-			srv := vfC10Srv{MaxTx: vfC10U64(V[(n+i)%len(V)]), CC: vfC10CCs[(n+2*i)%4]}
+			srv := vfC10Srv{MaxTx: vfC10U64(V[(n+i)%len(V)]), CC: sp.next(vfC10CCs[(n+2*i)%4])}
 			switch kd {
 			case 'A':
 				srv.Ignore, srv.MaxRx = true, vfC10U64(V[(n+i+1)%len(V)])
@@ -946,6 +1053,15 @@ func vfC10Pick[T any](r interface{ Intn(int) int }, s []T) T { return s[r.Intn(l
 
 // vfC10GenNegotiate: corners always; quick adds a PRNG sample, thorough the full cross product.
 func vfC10GenNegotiate(k *vfKit) []vfC10Case {
+	cases := vfC10GenNegotiateCanonical(k)
+	var sp vfC10SpellCounter
+	for i := range cases {
+		sp.world(&cases[i])
+	}
+	return cases
+}
+
+func vfC10GenNegotiateCanonical(k *vfKit) []vfC10Case {
 	var cases []vfC10Case
 	V, nv := vfC10Vals, len(vfC10Vals)
 	// corners: every (server MaxTx, client MaxRx) pair and every (client MaxTx, server MaxRx) pair,
@@ -1015,6 +1131,15 @@ var vfC10RawHdrs = []string{
 }
 
 func vfC10GenRaw(k *vfKit) []vfC10Case {
+	cases := vfC10GenRawCanonical(k)
+	sp := vfC10SpellCounter{n: 2}
+	for i := range cases {
+		sp.world(&cases[i])
+	}
+	return cases
+}
+
+func vfC10GenRawCanonical(k *vfKit) []vfC10Case {
 	var cases []vfC10Case
 	n := 0
 	for i, stx := range vfC10Vals {
@@ -1044,6 +1169,7 @@ var vfC10FakeUDP = []string{"true", "false", "-", "yes"}
 
 func vfC10GenFake(k *vfKit) []vfC10FakeCase {
 	var cases []vfC10FakeCase
+	sp := vfC10SpellCounter{n: 1}
 	n := 0
 	for ci, cc := range vfC10CCs {
 		c := vfC10FakeCase{CaseID: fmt.Sprintf("c10f-%d", ci)}
@@ -1058,7 +1184,7 @@ func vfC10GenFake(k *vfKit) []vfC10FakeCase {
 					ccc = vfC10CCs[(i+j)%4]
 				}
 				c.Conns = append(c.Conns, vfC10FakeConn{
-					Cli:   vfC10Cli{MaxTx: vfC10U64(ctx), MaxRx: vfC10U64(vfC10Vals[(n*5+i+1)%len(vfC10Vals)]), CC: ccc},
+					Cli:   vfC10Cli{MaxTx: vfC10U64(ctx), MaxRx: vfC10U64(vfC10Vals[(n*5+i+1)%len(vfC10Vals)]), CC: sp.next(ccc)},
 					RxHdr: h, UDPHdr: vfC10FakeUDP[n%len(vfC10FakeUDP)]})
 				n++
 			}
